@@ -5,7 +5,7 @@
     each container the detection picks the right view, that the view is well formed, and
     that its logical content is the wrapped image itself - so every parser (any function of
     the bytes it reads) sees the same file whatever the wrapping. *)
-From SE Require Import Base Stream FatProofs StreamProofs Cue CueProofs Container ContainerProofs.
+From SE Require Import Base Stream FatProofs StreamProofs Cue CueProofs Container ContainerProofs Names AkaiImage.
 
 (** Alcohol MDX wrapper: recognised as MDX; StreamOffset(64, eof - 64) is a well-formed view
     whose logical content is the wrapped image, for every image (of less than 2^63 bytes). *)
@@ -70,6 +70,68 @@ Theorem cue_routing :
 Proof.
   intros c. unfold cue_route. destruct (existsb _ (c_tracks c)); split; intros H; try reflexivity; discriminate.
 Qed.
+
+
+(** * Composition with the whole-image model (C01's [akai_export] / [akai_listing])
+    [opened f] is the byte content every parser reads when handed the file [f]: the logical
+    content of the view the detection chose (by the two theorems above every read history on
+    that view returns exactly these bytes).  Export and listing THROUGH a container are the
+    whole-image functions applied to it. *)
+Definition opened (f : list Z) : list Z := logical (container_view f) f.
+Definition export_of_file (f : list Z) := akai_export (opened f).
+Definition listing_of_file (f : list Z) := akai_listing (opened f).
+
+(** For EVERY image d (any bytes, any size, well-formed or not): wrapped in MDX, or in
+    MODE1/2352 raw sectors when its size is a whole number of 2048-byte blocks, or not wrapped
+    at all, the exported files (paths, rates, channel counts, PCM) and the listed tree are those
+    of the plain image - including the error result when the plain image is rejected. *)
+Theorem container_export_transparent_mdx :
+  forall d, 0 < zlen d < 2 ^ 63 ->
+    export_of_file (wrap_mdx d) = akai_export d /\ listing_of_file (wrap_mdx d) = akai_listing d.
+Proof.
+  intros d Hd. destruct (mdx_view_lemma d Hd) as (_ & _ & L).
+  unfold export_of_file, listing_of_file, opened. rewrite L. split; reflexivity.
+Qed.
+Print Assumptions container_export_transparent_mdx.
+
+Theorem container_export_transparent_2352 :
+  forall d, d <> [] -> zlen d mod 2048 = 0 ->
+    export_of_file (wrap_2352 d) = akai_export d /\ listing_of_file (wrap_2352 d) = akai_listing d.
+Proof.
+  intros d Hd Hm. destruct (mdf_view_lemma d Hd) as (_ & _ & L).
+  unfold export_of_file, listing_of_file, opened. rewrite L, (pad_whole_blocks d Hm). split; reflexivity.
+Qed.
+Print Assumptions container_export_transparent_2352.
+
+(** any length: the parsers see the image followed by fewer than 2048 zero bytes *)
+Theorem container_export_2352_any_length :
+  forall d, d <> [] ->
+    export_of_file (wrap_2352 d) = akai_export (pad_to 2048 d) /\ listing_of_file (wrap_2352 d) = akai_listing (pad_to 2048 d).
+Proof.
+  intros d Hd. destruct (mdf_view_lemma d Hd) as (_ & _ & L).
+  unfold export_of_file, listing_of_file, opened. rewrite L. split; reflexivity.
+Qed.
+
+Theorem container_export_transparent_raw :
+  forall f, is_mdf f = false -> is_mdx f = false ->
+    export_of_file f = akai_export f /\ listing_of_file f = akai_listing f.
+Proof.
+  intros f H1 H2. destruct (raw_view_lemma f H1 H2) as (_ & L).
+  unfold export_of_file, listing_of_file, opened. rewrite L. split; reflexivity.
+Qed.
+Print Assumptions container_export_transparent_raw.
+
+(** the same for ANY function of the bytes read (Roland parser, CDDA data tracks, ...) *)
+Theorem container_transparent_for_every_parser :
+  forall (T : Type) (parser : list Z -> T) d,
+    (0 < zlen d < 2 ^ 63 -> parser (opened (wrap_mdx d)) = parser d) /\
+    (d <> [] -> zlen d mod 2048 = 0 -> parser (opened (wrap_2352 d)) = parser d).
+Proof.
+  intros T parser d. split.
+  - intros Hd. destruct (mdx_view_lemma d Hd) as (_ & _ & L). unfold opened. now rewrite L.
+  - intros Hd Hm. destruct (mdf_view_lemma d Hd) as (_ & _ & L). unfold opened. now rewrite L, (pad_whole_blocks d Hm).
+Qed.
+Print Assumptions container_transparent_for_every_parser.
 
 (** Non-vacuity: a 5000-byte image, both wrappings. *)
 Example c09_example :
